@@ -6,6 +6,7 @@ import lasgen
 import readmodel as rm
 import writemodel as wm
 from props import c08
+from props import c01
 
 PROP = "C03"
 MODEL_TARGETS = ["Corr/WriteShow.vo"]
@@ -306,6 +307,20 @@ def run(ctx):
         res.corr_error = err
         for i in mism:
             res.mismatches.append({"text": meta[i][0], "ops": repr(meta[i][1])})
+        if not err:
+            # audit D12: how many generated cases lie inside the theorem domains (see c01.RUN_DOMAIN)
+            import time
+            t_dom = time.time()
+            dcases = cases if ctx.thorough else cases[:c01.DOMAIN_SAMPLE]
+            dom, derr = c01.domain_counts("c03dom", dcases, 2)
+            res.extra["domain_eval_s"] = round(time.time() - t_dom, 1)
+            if derr:
+                res.corr_error = "domain: " + derr
+            else:
+                hist["theorem_domain_evaluated_on"] = len(dcases)
+                hist["in_domain_of_C01_file_roundtrip_checked"] = dom["F"]
+                hist["in_domain_of_C03_file_roundtrip_only"] = dom["H"]
+                hist["outside_both_theorem_domains"] = dom["outside"]
     else:
         res.corr_error = "model not built"
     res.cases = len(cases)
